@@ -12,7 +12,7 @@
  * channel.to_choi / to_liouville (row, column) / to_pauli_liouville describe that same map;
  * histories interleaving representation queries and executions: every execution gives the same map.
 """
-STATIC = ["C04/Props"]
+STATIC = ["C04/LiftTP", "C04/Props"]
 import itertools
 import math
 import random
@@ -325,8 +325,12 @@ def main(run):
         else:
             run.refuted.append(key)
             run.find(key, f"{key}: failed on {stt['bad']}", stt["bad"])
-    run.not_proved += ["n-qubit lift of the one-qubit closed-form theorems (tied by exact correspondence at every position n<=3 instead)",
-                       "complete positivity is by the Kraus form; ThermalRelaxation t1<t2 Kraus list is refuted (known finding)"]
+    run.not_proved += ["n-qubit lift of the one-qubit CLOSED FORMS (reset/depolarizing: C18/LiftC04.v proves closed form = weights (x) "
+                       "partial-trace model; the other channels are tied by exact correspondence at every position n<=3)",
+                       "ThermalRelaxation t1<t2 Kraus list is refuted (known finding)"]
+    run.notes["lift_theorems"] = ("C04/LiftTP.v (in Props.v): for every register size n and every duplicate-free in-range target list, "
+                                  "apply_kraus is trace preserving when the small operator sum is (kraus_tp_lifts, unitary_mixture_trace), "
+                                  "maps Gram forms to Gram forms also on extended registers (complete positivity), preserves Hermiticity")
     return run.finish(rule=RULE)
 
 
